@@ -206,3 +206,25 @@ CHECKS["C02"] = {
     "design_ref": "5/C02",
     "assumptions": TRUST,
 }
+
+CHECKS["C05"] = {
+    "tests": [T("TestC05", 40, 1200)],
+    "level": "fault_enumeration",
+    "technique": "crash-point enumeration: every prefix of the journaled persistence effects (block writes incl. fetched blocks, cache puts/deletes) of generated histories (rapid) is materialised as a fresh offline peer and recovered; oracle = acknowledged subset, written superset, ancestry closure, model replay, identity, writability",
+    "rule": "rapid draws a store type, 0-2 other writers and up to 8 (quick) / 12 (thorough) steps on the replica under test: runs of local writes, remote writes, merges (manual Sync of another writer's heads), clean restarts (instance closed, recreated on the same recorded disk, Load(-1): everything acknowledged so far must be there, identity unchanged). Every persistence effect of the replica is journaled in issue order with acknowledgement marks (write call returned; replicated event observed). Then every prefix of the journal after database creation (all of them up to 40 effects, otherwise first, last, the last 12 and 12 drawn ones) is materialised: a fresh offline kubo node holding exactly those blocks and a disk holding exactly those datastore writes; a new instance with the same peer key opens the database and Load(-1)s it. Oracle per crash point: identity unchanged; recovered entries include everything acknowledged before the cut, are all entries that were really written, are closed under next; Values() == (time,id) order; view == LWW replay of the recovered entries; a new write succeeds. non-trivial = a cut falls between an entry's block write and the head put, or the history contains a replicated batch; distinct = SHA-1 of the case JSON",
+    "level_text": "All crash points of each generated history are enumerated when the journal has at most 40 effects (the usual case); longer journals are sampled. Histories themselves are sampled.",
+    "level_note": "Assumption from the statement: an effect is durable once its call returns, effects become durable in issue order. Disk = recorded datastore behind cache.Interface and the keystore datastore; real leveldb close/reopen cycles are exercised by C18.",
+    "design_ref": "5/C05",
+    "assumptions": TRUST,
+}
+
+CHECKS["C18"] = {
+    "tests": [T("TestC18", 60, 1500)],
+    "level": "exploration",
+    "technique": "property-based testing (rapid): generated instance configurations and close/drop moments (idle, mid-write, with a replication's fetches parked by the harness) on real leveldb directories; watchdogged post-close calls, goroutine attribution from runtime stacks, reopen-and-compare",
+    "rule": "rapid draws 1-3 databases (type, 0-4 acknowledged local writes, 0-3 entries authored elsewhere, replication state none / merged / in flight with every fetch parked), a closing action on a target database or on the instance (Close once, twice, twice concurrently; Drop; instance Close once, twice, concurrently), whether the parked fetches are released before or after the close call, and whether a goroutine keeps writing to the target during the close. The instance under test lives on a real leveldb directory (library defaults) with the simulated transports. Oracle: the closing call and every public operation afterwards on the closed object (write, view, Load, Sync, LoadFromSnapshot, SaveSnapshot, ReplicationStatus, Close; Open/Create/DetermineAddress on a closed instance) returns without panic within a 20 s watchdog; sibling databases of a closed or dropped store stay writable and keep their entries; after the instance is closed no goroutine whose creator frame is in berty.tech/go-orbit-db (and that did not exist before the instance was created) is left after a polling window; a new instance on the same directory reopens every database, Load(-1) shows every acknowledged write (incl. those acknowledged to the concurrent writer), a dropped database is empty and the siblings' directories still exist. non-trivial = closed with a replication parked, or the instance held >= 2 databases; distinct = SHA-1 of the case JSON",
+    "level_text": "Generated close moments; the only harness-owned in-flight state is the parked block fetch. Leaks are judged after a bounded wait: a goroutine still alive at its end is reported with its stack.",
+    "level_note": "The watchdog (20 s) and the leak window (8 s) only bound waits; under the driver a failure must reproduce when the case is re-executed. The bundled pubsub adapters are exercised by C20, not here.",
+    "design_ref": "5/C18",
+    "assumptions": TRUST,
+}
